@@ -249,3 +249,30 @@ Definition thin_of (header method : string) : option string :=
   | Some (_, _, _, b) => Some b
   | None => None
   end.
+
+(* ---- the short multi-statement bodies (coq/gen/GenSigs.v gen_small_bodies) ---- *)
+Definition small_of (owner fn : string) : option (list string) :=
+  match find (fun r => String.eqb (fst (fst r)) owner && String.eqb (snd (fst r)) fn) gen_small_bodies with
+  | Some (_, _, b) => Some b
+  | None => None
+  end.
+
+(* the builders hand the array over exactly once: the owning builder reads its array out and forgets itself
+   (its Drop must not run over moved-out elements), the intrusive one forgets itself *)
+Lemma tie_builder_endings :
+  small_of "ArrayBuilder" "assume_init" =
+    Some ["debug_assert ! (self . is_full ()) ;"; "let array = ptr :: read (& self . array) ;";
+          "mem :: forget (self) ;"; "GenericArray :: assume_init (array)"] /\
+  small_of "IntrusiveArrayBuilder" "finish" = Some ["debug_assert ! (self . is_full ()) ;"; "mem :: forget (self)"].
+Proof. split; reflexivity. Qed.
+
+(* const_transmute: the size test, then a by-value reinterpretation through a repr(C) union of ManuallyDrop
+   fields (no reference to the argument is formed, so no alignment requirement arises, and the argument is
+   not dropped) *)
+Lemma tie_const_transmute_body :
+  small_of "" "const_transmute" =
+    Some ["if mem :: size_of :: < A > () != mem :: size_of :: < B > () { panic ! (""Size mismatch for generic_array::const_transmute"") ; }";
+          "# [repr (C)] union Union < A , B > { a : ManuallyDrop < A > , b : ManuallyDrop < B > , }";
+          "let a = ManuallyDrop :: new (a) ;";
+          "ManuallyDrop :: into_inner (Union { a } . b)"].
+Proof. reflexivity. Qed.
